@@ -348,12 +348,19 @@ class PipeFunc(Generic[T]):
 
         """
         self._validate_update(defaults, "defaults", self.parameters)
+        old_defaults = self._defaults
         if overwrite:
             self._defaults = defaults.copy()
         else:
             self._defaults = dict(self._defaults, **defaults)
         self._clear_internal_cache()
-        self._validate()
+        try:
+            self._validate()
+        except Exception:
+            # A rejected update must not be applied half-way
+            self._defaults = old_defaults
+            self._clear_internal_cache()
+            raise
 
     def update_renames(
         self,
@@ -511,12 +518,19 @@ class PipeFunc(Generic[T]):
 
         """
         self._validate_update(bound, "bound", self.parameters)
+        old_bound = self._bound
         if overwrite:
             self._bound = bound.copy()
         else:
             self._bound = dict(self._bound, **bound)
         self._clear_internal_cache()
-        self._validate()
+        try:
+            self._validate()
+        except Exception:
+            # A rejected update must not be applied half-way
+            self._bound = old_bound
+            self._clear_internal_cache()
+            raise
 
     def _clear_internal_cache(self) -> None:
         clear_cached_properties(self, PipeFunc)
